@@ -1130,7 +1130,7 @@ def world_cli(w, argv, stdin=None):
 
 # --------------------------------------------------------------------------- generated histories
 
-HISTORY_OPS = ['edit_module', 'user_edit_output', 'delete_output', 'deploy', 'overlay_edit', 'remove_manifest', 'legacy_manifests',
+HISTORY_OPS = ['edit_module', 'user_edit_output', 'delete_output', 'deploy', 'overlay_edit', 'overlay_subset', 'remove_manifest', 'legacy_manifests',
                'rollback', 'bootstrap', 'dirty', 'record', 'restore', 'rebase', 'lock']
 
 def _deployed_files(w):
@@ -1197,6 +1197,21 @@ def perturb(w, rng, steps, last=None):
                                 break
                     w.info['overlay_module'] = mod; w.info['overlay_dir'] = od
                     if has_git: _commit_all(sb, 'overlay')
+            elif op == 'overlay_subset':
+                # a directory overlay whose only edit upstream has meanwhile made too (next to another upstream edit): the
+                # three-way merge is clean and EQUALS the new upstream — the state in which --sparsify drops the file
+                up = os.path.join(sb.repo, 'modules/skills/helper/notes.txt')
+                rc0, d0 = cli(['overlay', 'path', 'skill:helper'])
+                od = d0['data']['overlay_dir'] if d0 and d0.get('ok') else None
+                if od and not os.path.exists(od) and has_git:
+                    lines = ['alpha', 'beta', 'gamma', 'delta', 'epsilon', 'zeta', 'eta', 'theta']
+                    W.write(up, '\n'.join(lines) + '\n'); _commit_all(sb, 'notes v2')
+                    rc, d = cli(['overlay', 'edit', 'skill:helper', '--kind', 'dir'])
+                    if d and d.get('ok'):
+                        W.write(os.path.join(od, 'notes.txt'), '\n'.join(['ALPHA'] + lines[1:]) + '\n'); _commit_all(sb, 'overlay alpha')
+                        W.write(up, '\n'.join(['ALPHA'] + lines[1:6] + ['ETA', 'theta']) + '\n'); _commit_all(sb, 'upstream alpha + eta')
+                        w.info['overlay_module'] = 'skill:helper'; w.info['overlay_dir'] = od
+                        note = 'subset overlay on skill:helper'
             elif op == 'remove_manifest':
                 ms = [os.path.join(dp, fn) for dp, dns, fns in os.walk(sb.root) for fn in fns
                       if fn.startswith('.agentpack.manifest.') and 'aphome' not in os.path.relpath(dp, sb.root).split(os.sep)[:1] and '.pristine' not in dp]
@@ -1217,6 +1232,9 @@ def perturb(w, rng, steps, last=None):
                 snaps = w.info.get('snapshots') or []
                 if snaps:
                     sid = rng.choice(snaps); rc, d = cli(['rollback', '--to', sid]); note = 'rc=%s' % rc
+                    # the rollback's own record is a snapshot id too (an invalid rollback target): later invocations try it
+                    ev = (d or {}).get('data', {}).get('event_snapshot_id') if d and d.get('ok') else None
+                    if ev and ev not in snaps: w.info['snapshots'] = [ev] + snaps
             elif op == 'bootstrap':
                 rc, d = cli(['bootstrap', '--scope', rng.choice(['user', 'project', 'both'])]); note = 'rc=%s' % rc
                 if d and d.get('ok') and d['data'].get('snapshot_id'): w.info.setdefault('snapshots', []).append(d['data']['snapshot_id'])
